@@ -210,5 +210,12 @@ def declare(w):
                    cases=[Case("ok", post=sched_post),
                           Case("corrupt-task", "raise", "LoadError"), Case("truncated-task", "raise", "EOFError"), Case("pool-shutting-down", "raise", "ValueError")],
                    props=["C14", "C06"]))
+    # publication order: the completion event is cleared ("main thread busy") BEFORE the task is handed to the pool - the main thread may run and finish the
+    # task at once, and its set() must come after this clear(), or every later remote_exec is refused as a deadlock
+    def at_spawn(a, h0, call, hnow, loc=None):
+        e = h0("WorkerGateway", a.self, "_executetask_complete")
+        return [("completion-event-cleared-before-the-task-is-handed-over", z3.Implies(z3.And(call.gw == a.self, is_mto(a, h0)), z3.Not(ev_set(hnow, e))))]
+
+    w.contracts[f"{GB}:WorkerGateway._local_schedulexec"].at_call = {"model:execpool.spawn": at_spawn}
     # Event.wait(timeout=1) in _local_schedulexec: with a timeout the flag may still be unset on return
     return w
